@@ -106,7 +106,7 @@ def run_one(desc, seq, late=None):
     if err:
         return ('order_invariant', err), inv, None
     # cycle 0: after creation (registers at 0, inputs as poked)
-    regs0 = {k: 0 for k, nd in enumerate(desc['nodes']) if is_state(nd)}
+    regs0 = netgen.reg_init(desc)
     ref0 = netgen.ref_settle(desc, comb_order(desc), seq[0], regs0)
     if late is not None:
         sim.propagateAll()      # getSimulator() on an existing simulator re-sorts only; clk() settles first
